@@ -1074,8 +1074,11 @@ class HeaderSet(cabc.MutableSet[str]):
         headers: cabc.Iterable[str] | None = None,
         on_update: cabc.Callable[[te.Self], None] | None = None,
     ) -> None:
-        self._headers = list(headers or ())
-        self._set = {x.lower() for x in self._headers}
+        self._headers: list[str] = []
+        self._set: set[str] = set()
+        self.on_update = None
+        # Skip items that only differ in case, like add and update do.
+        self.update(headers or ())
         self.on_update = on_update
 
     def add(self, header: str) -> None:
@@ -1185,10 +1188,20 @@ class HeaderSet(cabc.MutableSet[str]):
             self.on_update(self)
 
     def __setitem__(self: te.Self, idx: t.SupportsIndex, value: str) -> None:
-        old = self._headers[idx]
-        self._set.remove(old.lower())
-        self._headers[idx] = value
-        self._set.add(value.lower())
+        pos = range(len(self._headers))[idx]
+        self._set.remove(self._headers[pos].lower())
+        self._headers[pos] = value
+        key = value.lower()
+
+        if key in self._set:
+            # Already present at another position, keep the assigned one.
+            for other, item in enumerate(self._headers):
+                if other != pos and item.lower() == key:
+                    del self._headers[other]
+                    break
+        else:
+            self._set.add(key)
+
         if self.on_update is not None:
             self.on_update(self)
 
